@@ -16,7 +16,7 @@
    every run by executing the composed model AND two real stacks on the same scenarios (complete traces compared,
    event by event) and judging the implementation traces with the extracted check_C04 below. *)
 From PS Require Import Lib.Base Generated.Consts Model.SdTypes Model.Config Model.Session Model.StackTypes Model.Stack
-  Model.StackIO Model.System Spec.C08Spec Spec.C04Spec Proofs.C07Proofs Proofs.WorldInv Proofs.SystemProofs.
+  Model.StackIO Model.System Spec.C08Spec Spec.C04Spec Proofs.C07Proofs Proofs.WorldInv Proofs.SystemProofs Model.Skel Generated.LogicGen Proofs.GenSkel.
 
 Theorem C04_crash_is_silent : forall t b nd fuel rv arrived w tr,
   node_step t b nd fuel rv [CCrash] arrived w tr = (None, match w with Some x => out x ++ tr | None => tr end, [], true).
@@ -65,6 +65,12 @@ Theorem C04_both_stacks_well_formed_in_every_state : forall sc,
   fresh_insts (nd_insts (ss_a sc)) -> fresh_insts (nd_insts (ss_b sc)) -> sys_ok (fst (sys_run_scenario sc)).
 Proof. exact sys_reachable_ok. Qed.
 
+(* the per-entry dispatch of ServiceDiscoveryProtocol.sd_message_received in the model IS the control flow translated
+   from the source text on every run (which component handles which entry type, directly or through call_soon) *)
+Theorem C04_dispatch_is_the_translated_source : forall h a mc w,
+  Some (sd_message_received h a mc w) = if gen_sd_accept (sd_unicast h) then run_dispatch (sd_entries h) a mc w else Some w.
+Proof. exact sd_message_received_is_the_translated_source. Qed.
+
 Print Assumptions C04_crash_is_silent.
 Print Assumptions C04_both_stacks_well_formed_in_every_state.
 Print Assumptions C04_restart_is_fresh.
@@ -74,3 +80,4 @@ Print Assumptions C04_reboot_evidence_detected.
 Print Assumptions C04_first_contact_is_no_reboot.
 Print Assumptions C04_network_reliable_outside_fault_window.
 Print Assumptions C04_latency_positive.
+Print Assumptions C04_dispatch_is_the_translated_source.
